@@ -15,7 +15,7 @@ def jobs(tier):
     for table, allowed in (("IN", IN_TYPES), ("OUT", OUT_TYPES)):
         for typ in ALL_TYPES:
             js.append({"mode": "ctor", "table": table, "type": typ, "allowed": typ in allowed})
-    subjects = [("IN", t) for t in IN_TYPES] + [("OUT", t) for t in OUT_TYPES] + [("INTRA", "MOVE")]
+    subjects = [("IN", t) for t in IN_TYPES] + [("OUT", t) for t in OUT_TYPES] + [("INTRA", "MOVE"), ("INTRA", "MOVE-self")]
     contexts = ["BS"] if tier == "quick" else ["BS", "BSM", "BMS", "IBS"]
     methods = ["fifo", "hifo"] if tier == "quick" else ["fifo", "lifo", "hifo", "lofo"]
     for ctx in contexts:
@@ -39,7 +39,7 @@ def weight(spec):
 def bounds(tier):
     return {
         "constructor_table": "14 types x {IN, OUT} tables, symbolic amount/price/fee",
-        "histories": "context %s with the subject slot (each of 10 IN types, 6 OUT types, MOVE) inserted at every position" % (["BS"] if tier == "quick" else ["BS", "BSM", "BMS", "IBS"]),
+        "histories": "context %s with the subject slot (each of 10 IN types, 6 OUT types, MOVE between two accounts, MOVE to the same account) inserted at every position" % (["BS"] if tier == "quick" else ["BS", "BSM", "BMS", "IBS"]),
         "amounts": "k*1e-11, k in [1, 1e20]; fees k in [0, 1e20]",
         "prices": "k*1e-4, k in [1, 1e10]",
         "outside": ["negative STAKING income", "exchange-supplied fiat columns (C04)", "longer histories"],
@@ -85,7 +85,10 @@ def run(S, spec):
     for s in slots:
         if s["table"] == "INTRA":
             s["fee"] = "any"
-    subj = slot(spec["table"], spec["type"], fee="any" if spec["table"] != "IN" else "none")
+    typ = spec["type"]
+    subj = slot(spec["table"], "MOVE" if typ == "MOVE-self" else typ, fee="any" if spec["table"] != "IN" else "none")
+    if typ == "MOVE-self":
+        subj["ex2"], subj["ho2"] = subj["ex"], subj["ho"]  # transfer to the same account: rp2 accepts it (with a warning)
     if spec["type"] == "FEE":
         subj["fee"] = "pos"
     slots.insert(spec["pos"], subj)
